@@ -67,6 +67,11 @@ type c14Alt struct {
 	Pred     *c14Pred
 	PredText string
 	RHS      []c14Sym
+	// decorations that wrap the alternative without changing its language (text only; the index-level model
+	// does not see them): `%prec 't'`, `-> Node`, state markers `.m` before the symbol at the given positions
+	Prec    int
+	Arrow   string
+	Markers map[int]string
 }
 
 type c14NT struct {
@@ -81,6 +86,7 @@ type c14In struct {
 }
 
 type c14Gram struct {
+	Assoc  string // "%left 'a' 'b';" lines (needed by %prec)
 	NT     int // terminals incl. EOI
 	Params []c14Param
 	NTs    []c14NT
@@ -108,6 +114,7 @@ func (g *c14Gram) TM(name string) string {
 		ins = append(ins, s)
 	}
 	fmt.Fprintf(&sb, "%%input %s;\n", strings.Join(ins, ", "))
+	sb.WriteString(g.Assoc)
 	for _, p := range g.Params {
 		if !p.Global {
 			continue
@@ -158,6 +165,9 @@ func (g *c14Gram) TM(name string) string {
 				if k > 0 {
 					sb.WriteString(" ")
 				}
+				if m, ok := a.Markers[k]; ok {
+					sb.WriteString("." + m + " ")
+				}
 				if s.Term > 0 {
 					fmt.Fprintf(&sb, "'%s'", c14TermName(s.Term))
 					continue
@@ -180,6 +190,15 @@ func (g *c14Gram) TM(name string) string {
 					}
 					fmt.Fprintf(&sb, "<%s>", strings.Join(as, ", "))
 				}
+			}
+			if m, ok := a.Markers[len(a.RHS)]; ok && len(a.RHS) > 0 {
+				sb.WriteString(" ." + m)
+			}
+			if a.Prec > 0 {
+				fmt.Fprintf(&sb, " %%prec '%s'", c14TermName(a.Prec))
+			}
+			if a.Arrow != "" {
+				sb.WriteString(" -> " + a.Arrow)
 			}
 			sb.WriteString("\n")
 		}
@@ -696,6 +715,12 @@ func c14Gen(r *rand.Rand, cfg c14Cfg) *c14Gram {
 	if nNT >= 3 && r.Intn(3) == 0 {
 		nIn = 2
 	}
+	// by-name mode: most nonterminals declare an inline `flag X = v` of their own (one parameter index each),
+	// references between them mostly leave X out (propagation by NAME), its value is made visible
+	byName := r.Intn(5) == 0
+	if byName {
+		g.Feat["by-name mode"] = true
+	}
 	// headers
 	inline := []string{"X", "Y"}
 	for n := 0; n < nNT; n++ {
@@ -725,9 +750,20 @@ func c14Gen(r *rand.Rand, cfg c14Cfg) *c14Gram {
 			pos := 0
 			names := append([]string(nil), inline...)
 			r.Shuffle(len(names), func(i, j int) { names[i], names[j] = names[j], names[i] })
+			forceX := byName && !isInput && r.Intn(5) != 0
+			if forceX {
+				names = []string{"X", "Y"}
+				if nInl == 0 {
+					nInl = 1
+				}
+			}
 			for k := 0; k < nInl; k++ {
 				idx := len(g.Params)
-				g.Params = append(g.Params, c14Param{Name: names[k], Dflt: r.Intn(3) - 1})
+				d := r.Intn(3) - 1
+				if forceX && k == 0 {
+					d = r.Intn(2)
+				}
+				g.Params = append(g.Params, c14Param{Name: names[k], Dflt: d})
 				// insert at a random position (indices are assigned in order of appearance: keep inline ones in order)
 				pos = pos + r.Intn(len(cand)-pos+1)
 				cand = append(cand[:pos], append([]int{idx}, cand[pos:]...)...)
@@ -767,6 +803,9 @@ func c14Gen(r *rand.Rand, cfg c14Cfg) *c14Gram {
 		for _, p := range tp {
 			canOmit := sameName(p) >= 0 || g.Params[p].Dflt >= 0
 			k := r.Intn(10)
+			if byName && !g.Params[p].Global && sameName(p) >= 0 && r.Intn(3) != 0 {
+				k = 0 // leave it out: propagated by name
+			}
 			switch {
 			case k < 3 && (canOmit || bad()):
 				if sameName(p) >= 0 {
@@ -814,6 +853,24 @@ func c14Gen(r *rand.Rand, cfg c14Cfg) *c14Gram {
 				g.Feat["pred"] = true
 			}
 		}
+		if byName {
+			for _, p := range nt.Params {
+				if !g.Params[p].Global && r.Intn(10) < 7 {
+					pr := &c14Pred{Op: 'E', P: p, V: 1}
+					txt := g.Params[p].Name
+					if r.Intn(2) == 0 {
+						pr = &c14Pred{Op: 'N', Sub: []*c14Pred{pr}}
+						txt = "!" + txt
+					}
+					alt := c14Alt{Pred: pr, PredText: txt}
+					for k, ln := 0, 1+r.Intn(2); k < ln; k++ {
+						alt.RHS = append(alt.RHS, c14Sym{Term: 1 + r.Intn(g.NT-1)})
+					}
+					nt.Alts = append(nt.Alts, alt)
+					g.Feat["pred"] = true
+				}
+			}
+		}
 		for a := 0; a < nAlts; a++ {
 			var alt c14Alt
 			if a == nAlts-1 && r.Intn(5) != 0 {
@@ -849,7 +906,53 @@ func c14Gen(r *rand.Rand, cfg c14Cfg) *c14Gram {
 			nt.Alts = append(nt.Alts, alt)
 		}
 	}
-	// every input should reach something templated: make sure the first input references a parametrized nonterminal
+	// reachability (in 9 of 10 grammars): every nonterminal is referenced from something reachable from an input
+	if r.Intn(10) != 0 {
+		for {
+			reach := make([]bool, nNT)
+			var stack []int
+			for i := 0; i < nIn; i++ {
+				reach[i] = true
+				stack = append(stack, i)
+			}
+			for len(stack) > 0 {
+				n := stack[len(stack)-1]
+				stack = stack[:len(stack)-1]
+				for _, a := range g.NTs[n].Alts {
+					for _, sy := range a.RHS {
+						if sy.Term == 0 && !reach[sy.NT] {
+							reach[sy.NT] = true
+							stack = append(stack, sy.NT)
+						}
+					}
+				}
+			}
+			u := -1
+			var rs []int
+			for n := 0; n < nNT; n++ {
+				if reach[n] {
+					rs = append(rs, n)
+				} else if u < 0 {
+					u = n
+				}
+			}
+			if u < 0 {
+				break
+			}
+			cn := rs[r.Intn(len(rs))]
+			var alt c14Alt
+			if r.Intn(2) == 0 {
+				alt.RHS = append(alt.RHS, c14Sym{Term: 1 + r.Intn(g.NT-1)})
+			}
+			alt.RHS = append(alt.RHS, c14Sym{NT: u, Args: mkArgs(cn, u)})
+			if r.Intn(2) == 0 {
+				alt.RHS = append(alt.RHS, c14Sym{Term: 1 + r.Intn(g.NT-1)})
+			}
+			// keep a terminal-only last alternative last
+			al := g.NTs[cn].Alts
+			g.NTs[cn].Alts = append(al[:len(al)-1:len(al)-1], alt, al[len(al)-1])
+		}
+	}
 	// lookahead arguments: targets that can use the flag (directly or through their first symbols)
 	if nLA > 0 {
 		g.Feat["lookahead"] = true
@@ -927,6 +1030,46 @@ func c14Gen(r *rand.Rand, cfg c14Cfg) *c14Gram {
 							s.Args[x].X = usesLA[n][r.Intn(len(usesLA[n]))]
 						}
 					}
+				}
+			}
+		}
+	}
+	// decorations that wrap alternatives (2 of 5 grammars): %prec, arrows, state markers, combined with predicates
+	if r.Intn(5) < 2 {
+		g.Feat["decorated alternatives"] = true
+		var ts []string
+		for t := 1; t < g.NT; t++ {
+			ts = append(ts, "'"+c14TermName(t)+"'")
+		}
+		cut := r.Intn(len(ts))
+		assoc := []string{"left", "right", "nonassoc"}
+		if cut > 0 {
+			g.Assoc += fmt.Sprintf("%%%s %s;\n", assoc[r.Intn(3)], strings.Join(ts[:cut], " "))
+		}
+		g.Assoc += fmt.Sprintf("%%%s %s;\n", assoc[r.Intn(3)], strings.Join(ts[cut:], " "))
+		nm := 0
+		for n := range g.NTs {
+			for ai := range g.NTs[n].Alts {
+				a := &g.NTs[n].Alts[ai]
+				pp := 4
+				if a.Pred != nil {
+					pp = 2 // conditional alternatives get them more often
+				}
+				if r.Intn(pp) == 0 {
+					a.Prec = 1 + r.Intn(g.NT-1)
+					g.Feat["%prec"] = true
+					if a.Pred != nil {
+						g.Feat["%prec on a conditional alternative"] = true
+					}
+				}
+				if r.Intn(pp) == 0 {
+					a.Arrow = fmt.Sprintf("R%dx%d", n, ai)
+					g.Feat["arrow"] = true
+				}
+				if len(a.RHS) > 0 && r.Intn(pp+1) == 0 {
+					a.Markers = map[int]string{r.Intn(len(a.RHS) + 1): fmt.Sprintf("m%d", nm%3)}
+					nm++
+					g.Feat["state marker"] = true
 				}
 			}
 		}
@@ -1141,7 +1284,9 @@ func c14(c *Ctx) {
 		"between nonterminals (propagation by name), 1-3 alternatives of 0-3 symbols (the last one a predicate-free terminal-only base case in 4 of 5 nonterminals so that most " +
 		"nonterminals are productive; nonterminals that look at a lookahead flag mostly get a terminal-only alternative guarded by the flag), predicates `P`, `!P`, `P == \"v\"`, `P != \"v\"` (v in true/false/x) combined with " +
 		"&& and || (3/5 of the alternatives of parametrized nonterminals), references with arguments `+P`, `~P`, `P: true|false`, `P: Q`, `P`, omitted (propagated by name " +
-		"or defaulted), lookahead arguments placed preferably where the flag can be used; a small fraction of deliberately invalid choices (undeclared parameter in a " +
+		"or defaulted; in 1 of 5 grammars most nonterminals declare their own inline `flag X = v`, references between them mostly omit it and `[X]`/`[!X]` guard terminal-only " +
+		"alternatives), in 2 of 5 grammars alternatives (conditional ones more often) carry `%prec 't'` (with %left/%right/%nonassoc declarations), `-> Node` and state markers " +
+		"`.m` in any combination (text only: they must not change the rules), lookahead arguments placed preferably where the flag can be used; in 9 of 10 grammars every nonterminal is made reachable from an input; a small fraction of deliberately invalid choices (undeclared parameter in a " +
 		"predicate, parametrized input, uninitialized parameter, unusable lookahead argument, nullable nonterminal on a lookahead path). Each grammar is compiled by the real " +
 		"compiler.Compile in a child process (answers ok+rules / err / fatal). (1) `inst`: status and instantiated rules vs the Lean mirror pipeline, up to nonterminal " +
 		"naming and block order, and the mirror's lookahead-propagation certificate (hypothesis of C14_propagate_args_sound_partial) must hold. (2) for every ok grammar every terminal string up to length 5 (6 with two terminals) is tested: template semantics at the default valuation " +
